@@ -327,7 +327,7 @@ def split_config(h, mesh, style, pt=None, sub=None, bnd=None):
                 h.concrete('boundary "%s" designates the same edges' % name, got == want, 'got %s want %s' % (got, want))
 
 
-def extrude_config(h, order=(0, 1)):
+def extrude_config(h, order=(0, 1), commuted=False):
     """MeshTri1 * MeshLine1: one prism per (triangle, segment) between consecutive levels in INCREASING order, whatever the storage
     order of the line nodes (`order` lists the node indices from the lowest to the highest level)."""
     import skfem as S
@@ -344,7 +344,7 @@ def extrude_config(h, order=(0, 1)):
             for i in range(n - 1):
                 h.assume(z[0, order[i]] < z[0, order[i + 1]])
         h.sample(dict(triangle='tri1', line_nodes_low_to_high=list(order)))
-        W = mt * ml
+        W = (ml * mt) if commuted else (mt * ml)       # (line * triangle delegates to triangle * line)
         h.concrete('one prism per (triangle, segment)', np.asarray(W.t).shape == (6, n - 1))
         Pw, tw = W.doflocs, np.asarray(W.t)
         P = mt.doflocs
@@ -576,6 +576,7 @@ def build_configs(tier, seed):
             sub={'s0': [0], 's2': [2]}, bnd={'b%d' % f: [f] for f in range(10)})
     for order in [(0, 1), (1, 0), (0, 2, 1), (2, 0, 1)] + ([] if quick else [(1, 2, 0), (2, 1, 0), (0, 1, 2), (1, 0, 2)]):
         add('extrude/tri1xline/levels=%s' % ''.join(map(str, order)), extrude_config, order=order)
+    add('extrude/linextri1/levels=102', extrude_config, order=(1, 0, 2), commuted=True)
     for ox, oy in [((0, 1), (1, 0)), ((1, 0, 2), (0, 1)), ((0, 2, 1), (2, 0, 1))]:
         add('extrude/linexline/x=%s/y=%s' % (''.join(map(str, ox)), ''.join(map(str, oy))), extrude_line_config, orderx=ox, ordery=oy)
     for kind in ('hex', 'wedge'):
